@@ -99,7 +99,14 @@ Branches(T, env) ==
   CASE T.t = "ref"   -> Branches(Lookup(env, T.n), env)
     [] T.t = "union" -> UNION {Branches(T.ms[i], env) : i \in DOMAIN T.ms}
     [] T.t = "inter" -> IF T.ms = <<>> THEN {TAny} ELSE MeetFrom(Branches(T.ms[1], env), T.ms, 2, env)
+    [] T.t = "deco"  -> Branches(T.a, env)
+    [] T.t = "app"   -> Branches(Instantiate(env, T.n, T.args), env)
     [] OTHER -> {T}
+
+\* ast/runtype.rs all_of: literal object members without index signature are merged into one object
+RECURSIVE Undeco(_)
+Undeco(T) == IF T.t = "deco" THEN Undeco(T.a) ELSE T
+MergedAtCompileTime(T) == \A i \in DOMAIN T.ms : Undeco(T.ms[i]).t = "obj" /\ Undeco(T.ms[i]).ix = <<>>
 
 \* ------------------------------------------------------------------ membership
 ObjM3(v, T, env, D, s) ==
@@ -147,9 +154,16 @@ M3(v, T, env, D, s) ==
     [] T.t = "set"   -> IF v.k = "set" THEN And3({M3(v.es[i], T.e, env, D, s) : i \in DOMAIN v.es}) ELSE "F"
     [] T.t = "ta"    -> B3(v.k = "ta" /\ v.c = T.c)
     [] T.t = "ref"   -> M3(v, Lookup(env, T.n), env, D, s)
+    [] T.t = "deco"  -> M3(v, T.a, env, D, s)
+    [] T.t = "app"   -> M3(v, Instantiate(env, T.n, T.args), env, D, s)
     [] T.t = "union" -> Or3({M3(v, T.ms[i], env, D, s) : i \in DOMAIN T.ms})
     [] T.t = "both"  -> And3({M3(v, T.a, env, D, s), M3(v, T.b, env, D, s)})
     [] T.t = "inter" ->
+         IF s /\ "strictPerInterMember" \in D /\ ~MergedAtCompileTime(T)
+         THEN \* deviation: an intersection that is not merged at compile time (a member is a named reference, a
+              \* generic instance, has an index signature ...) is judged member by member with the strict flag
+              And3({M3(v, T.ms[i], env, D, s) : i \in DOMAIN T.ms})
+         ELSE
          IF s THEN Or3({M3(v, b, env, D, s) : b \in Branches(T, env)})
          ELSE LET plain == And3({M3(v, T.ms[i], env, D, s) : i \in DOMAIN T.ms}) IN
               IF "allOfNeedsObject" \in D /\ v.k \notin {"obj", "date", "map", "set", "ta", "arr", "null"} /\ T.ms # <<>>
